@@ -225,7 +225,45 @@ pub fn run_c17(chk: &Check, tier: Tier) {
         chk.add_eval(n);
         chk.push("reset_storm_2_pow_32", json!({"scanner": S::NAME, "resets": n, "wall_s": t0.elapsed().as_secs_f64()}));
     }
+    // thorough tier: 2^32 - 10 messages on another channel (a 32-bit message counter is about to
+    // wrap), progress on channels 0 and 15, 20 more messages (it has wrapped), reset: the scanner must
+    // == a new one and behave like one
+    fn huge_traffic<S: Scanner>(chk: &Check, timeout: u64, prefix: &[(u8, u8)], ctrls: &[u8], filler: (u8, u8)) {
+        use std::hint::black_box;
+        let t0 = std::time::Instant::now();
+        set_clock(0);
+        let mut sc = S::make(timeout);
+        let other = cc(7, filler.0, filler.1);
+        let n: u64 = (1 << 32) - 10;
+        for _ in 0..n {
+            black_box(black_box(&mut sc).feed_msg(&other));
+        }
+        for ch in [0u8, 15] {
+            for &(c, v) in prefix {
+                let _ = sc.feed_msg(&cc(ch, c, v));
+            }
+        }
+        for _ in 0..20 {
+            black_box(black_box(&mut sc).feed_msg(&other));
+        }
+        sc.reset_all();
+        let fresh = S::make(timeout);
+        if sc != fresh {
+            chk.violate(Violation::new("reset-equals-new", format!("C17/{}/reset-equals-new/after-2^32-messages", S::NAME), format!("2^32-10 messages on channel 7, progress {:?} on channels 0 and 15, 20 more messages, reset(): the scanner is not == a new one: {:?}", prefix, sc)));
+        }
+        for ch in [0u8, 15] {
+            if let Some(d) = post_reset_differential(&sc, &fresh, ch, ctrls, 3, S::POLLS) {
+                chk.violate(Violation::new("reset-behaves-like-new", format!("C17/{}/reset-behaves-like-new/after-2^32-messages", S::NAME), format!("2^32-10 messages on channel 7, progress {:?} on channels 0 and 15, 20 more messages, reset(); channel {}: {}", prefix, ch, d)));
+            }
+        }
+        chk.add_eval(n + 20);
+        chk.push("traffic_2_pow_32", json!({"scanner": S::NAME, "messages": n + 20, "wall_s": t0.elapsed().as_secs_f64()}));
+    }
     if tier.thorough() {
+        huge_traffic::<ControlChange14BitMessageScanner>(chk, 0, &[(6, 5)], &[38, 6, 7, 39], (1, 1));
+        huge_traffic::<ParameterNumberMessageScanner>(chk, 0, &[(99, 1)], &[98, 6, 38, 96], (99, 1));
+        #[cfg(feature = "polling")]
+        huge_traffic::<PollingParameterNumberMessageScanner>(chk, 0, &[(99, 1)], &[98, 6, 38, 96], (99, 1));
         huge_storm::<ControlChange14BitMessageScanner>(chk, 0, &[(6, 5)], &[38, 6, 7, 39]);
         huge_storm::<ParameterNumberMessageScanner>(chk, 0, &[(99, 1), (98, 2), (38, 3)], &[6, 38, 96, 98]);
         #[cfg(feature = "polling")]
